@@ -356,6 +356,10 @@ def judge(h, box, res, rep, case):
             rend = [x for x in renders if x["ver"] == ver and x["seq"] <= e.seq] if ver is not None else []
             queued = bool(rend) and rend[-1]["t"] <= E[0] + 1e-9
             key = "queued-notification-sent-after-end" if queued else "notification-after-end/%s" % E[2]
+            if E[2] == "rst-non":
+                # the Reset to a NON notification had no effect at all (known mechanism); whatever ended the
+                # registration in the same instant was another cause
+                key = "rst-to-non-notification-ignored"
             rep.violation(key, "a notification of a registration was first transmitted after the registration had ended by %s%s" % (E[2], " (it had been rendered before the end and waited behind an unacknowledged notification)" if queued else ""), wit(rid=rid, cause=E, event=e.brief()), case)
             break
         # ---- (b) latest state ----
